@@ -149,8 +149,28 @@ def text_layer(ctx, ncases):
             name='text').check(ctx)
 
 
+def date_string_layer(ctx):
+    """strings read as dates, by the cast and by the implicit cast of an object operand: which spellings are dates"""
+    import impl
+    dd = datetime.date
+    rows = [('2020-1-31', '2020-1-31', dd(2020, 2, 1)), ('2020-02-9', '2020-02-9', dd(2020, 2, 9)), ('20200131', '20200131', dd(2020, 1, 31)),
+            ('2020-W05-5', '2020-W05-5', dd(2020, 1, 31)), ('2020-02-29', '2020-02-29', dd(2020, 2, 29)), ('abc', 'abc', dd(2020, 1, 1)),
+            (dd(2020, 3, 1), '2020-3-1', None), (None, None, dd(2020, 1, 1)), ('2021-02-29', ' 2020-01-01', dd(2021, 3, 1)),
+            ('2020-01-31 ', '2020-001-01', dd(2020, 1, 31)), ('0099-1-1', '99-1-1', dd(2020, 1, 31))]
+    table = impl.HTable('x', [('o', object), ('s', str), ('dt', dd)], rows)
+    for text in ("SELECT date(s), date(s) IS NULL, year(date(s)), coalesce(year(date(s)), 0), coalesce(month(date(o)), 0) FROM #x",
+                 "SELECT o >= 2020-02-01, o < dt, o = dt, dt - o, coalesce(dt - o, -1) FROM #x",
+                 "SELECT s FROM #x WHERE date(s) = 2020-01-31", "SELECT s FROM #x WHERE date(s) IS NULL", "SELECT s FROM #x WHERE o <= dt",
+                 "SELECT date('2020-1-31'), date('2020-02-9'), date('20200131'), date('2020-W05-5'), date('2020-02-30'), date('2020-12-1') FROM #x"):
+        case = SqlCase([table], text, name='text')
+        case.check(ctx)
+        if not case.run_impl().startswith('OK'):
+            raise RuntimeError('statement is not accepted: %s' % text)
+
+
 def run(ctx):
     overload_layer(ctx)
+    date_string_layer(ctx)
     text_layer(ctx, 0)
     random_layer(ctx, 60000 if ctx.thorough() else 700, 5 if ctx.thorough() else 3)
 
